@@ -62,3 +62,42 @@ func H_C01_Map() {
 	h.close()
 	vrt.Reach("db/end")
 }
+
+// H_C01_ManyGenerations: more than ten tables (directory names with a different number of significant digits),
+// a compaction that leaves holes in the numbering, restarts in between: the newest value still wins.
+func H_C01_ManyGenerations() {
+	vrt.RandPromoteBudget(0)
+	h := vNewDBEnvU(vUniverse[:1])
+	defer h.fs.Cleanup()
+	key := vUniverse[0]
+	opts := []ExtraOption{MemstoreSizeBytes(1 << 40), WriteBufferSizeBytes(64), ReadBufferSizeBytes(64)}
+	vrt.Assert(h.open(opts...) == nil, "gens/open-no-error")
+	n := 11
+	restartAt := vrt.Range("restart", 2, 10)
+	compactAt := vrt.Range("compact", 3, 11)
+	for i := 1; i <= n; i++ {
+		if i%4 == 3 {
+			h.del(key)
+		} else {
+			h.put(key, []byte{vrt.Byte(vrt.K("v", i))})
+		}
+		h.forceRotation()
+		if i == compactAt {
+			// one real compaction cycle over everything written so far: the numbering gets holes
+			h.db.compactionFileThreshold = 1
+			h.db.compactedMaxSizeBytes = 1 << 40
+			h.compactionCycle()
+		}
+		if i == restartAt {
+			h.close()
+			vrt.Assert(h.open(opts...) == nil, "gens/reopen-no-error")
+		}
+		h.checkReads("gens/reads")
+	}
+	h.close()
+	vrt.Assert(h.open(opts...) == nil, "gens/final-reopen-no-error")
+	h.checkReads("gens/reads-after-final-reopen")
+	h.close()
+	vrt.TraceBool("done", true)
+	vrt.Reach("gens/end")
+}
